@@ -50,13 +50,13 @@ class RenderError(Exception):
     pass
 
 
-def wide_text(idv):
+def wide_text(idv, width=W):
     """the label followed by filler that runs past the terminal's last column (only the display can keep that off the screen)"""
     t = label_text(idv)
-    return t + " " + "w" * (W + 7) if t else t
+    return t + " " + "w" * (width + 7) if t else t
 
 
-def frame_renderable(rows, flaky, wide=False):
+def frame_renderable(rows, flaky, wide=False, width=W):
     """A renderable showing one label per row; raises RenderError while flaky['broken'].  wide: every row is longer than
     the terminal is wide and does not shorten itself (overflow="ignore")."""
     from rich.console import RenderGroup
@@ -70,7 +70,7 @@ def frame_renderable(rows, flaky, wide=False):
             if flaky["broken"]:
                 raise RenderError("render")
             if wide:
-                yield RenderGroup(*[Text(wide_text(r), overflow="ignore", no_wrap=True) for r in self.rows])
+                yield RenderGroup(*[Text(wide_text(r, width), overflow="ignore", no_wrap=True) for r in self.rows])
             else:
                 yield RenderGroup(*[Text(label_text(r), overflow="crop", no_wrap=True) for r in self.rows])
     return Rows(rows)
@@ -83,21 +83,24 @@ def execute(spec, ops):
     from rich.progress import Progress, TextColumn
     from rich.status import Status
     tap = Tap()
-    console = Console(file=tap, force_terminal=True, width=W, height=spec["H"], color_system=None, _environ={})
+    Wd = spec.get("W", W)
+    redirect = spec.get("redirect", True) or spec["cls"] == "status"       # Status has no redirect options: always on
+    console = Console(file=tap, force_terminal=True, width=Wd, height=spec["H"], color_system=None, _environ={})
     flaky = dict(broken=False)
     cls = spec["cls"]
     if cls == "live":
         disp = Live(frame_renderable([0], flaky), console=console, auto_refresh=False, transient=spec["transient"],
-                    vertical_overflow=spec["overflow"])
+                    vertical_overflow=spec["overflow"], redirect_stdout=redirect, redirect_stderr=redirect)
     elif cls == "progress":
         class FlakyColumn(TextColumn):
             def render(self, task):
                 if flaky["broken"]:
                     raise RenderError("render")
                 return super().render(task)
-        disp = Progress(FlakyColumn("{task.description}"), console=console, auto_refresh=False, transient=spec["transient"])
+        disp = Progress(FlakyColumn("{task.description}"), console=console, auto_refresh=False, transient=spec["transient"],
+                        redirect_stdout=redirect, redirect_stderr=redirect)
     else:
-        disp = Status("F0.1", console=console)
+        disp = Status("F0.1", console=console, spinner=spec.get("spinner", "dots"))
         disp._live.auto_refresh = False
     dummy_out, dummy_err = io.StringIO(), io.StringIO()
     real_out, real_err = sys.stdout, sys.stderr
@@ -138,19 +141,24 @@ def execute(spec, ops):
                 elif k == "log":
                     console.log(label_text(op["ids"][0]))
                 elif k == "stdout":
-                    sys.stdout.write("".join(label_text(i) + "\n" for i in op["ids"]))
+                    (sys.stderr if op.get("err") else sys.stdout).write("".join(label_text(i) + "\n" for i in op["ids"]))
+                    if not redirect or not getattr(disp._live if cls == "status" else disp, "_started", False):
+                        e["k"] = "nop"     # not redirected (option off / display not running): the text goes to the real stream, not the screen
                 elif k == "update":
                     if cls == "status":
-                        disp.update(status=label_text(op["rows"][0]))
+                        kw = dict(spinner=op["spinner"]) if op.get("spinner") else {}
+                        disp.update(status="\n".join(label_text(r) for r in op["rows"]), **kw)
                     else:
-                        disp.update(frame_renderable(op["rows"], flaky, wide=spec.get("wide", False)), refresh=op["refresh"])
+                        disp.update(frame_renderable(op["rows"], flaky, wide=spec.get("wide", False), width=Wd), refresh=op["refresh"])
                 elif k == "refresh":
                     if cls == "status":
                         disp._live.refresh()
                     else:
                         disp.refresh()
                 elif k == "add":
-                    taskids[op["id"]] = disp.add_task((wide_text if spec.get("wide") else label_text)(op["label"]))
+                    taskids[op["id"]] = disp.add_task(wide_text(op["label"], Wd) if spec.get("wide") else label_text(op["label"]))
+                elif k == "relabel":
+                    disp.update(taskids[op["id"]], description=wide_text(op["label"], Wd) if spec.get("wide") else label_text(op["label"]))
                 elif k == "hide":
                     disp.update(taskids[op["id"]], visible=False)
                 elif k == "show":
@@ -177,7 +185,7 @@ def execute(spec, ops):
                 queue = [dict(k="exit", bodyexc=True)] if getattr(live, "_started", False) else []
     finally:
         sys.stdout, sys.stderr = real_out, real_err
-    return dict(mode=spec["mode"], transient=spec["transient"], overflow=spec["overflow"], H=spec["H"], W=W, cls=cls, events=events,
+    return dict(mode=spec["mode"], transient=spec["transient"], overflow=spec["overflow"], H=spec["H"], W=Wd, cls=cls, events=events,
                 cur0=[F(0, 1)] if cls == "status" else ([] if cls == "progress" else [0]))
 
 
@@ -216,7 +224,7 @@ def random_history(rng, spec, n, faults):
         if cls == "live":
             choices += ["update", "update", "update"]
         elif cls == "progress":
-            choices += ["add", "add", "advance"] + (["hide", "show", "remove"] if tasks else [])
+            choices += ["add", "add", "advance"] + (["hide", "show", "remove", "relabel"] if tasks else [])
         else:
             choices += ["update"]
         if started:
@@ -236,23 +244,30 @@ def random_history(rng, spec, n, faults):
         elif k in ("print", "stdout"):
             np_ += 1
             op["ids"] = [P(np_, i) for i in range(1, rng.choice([1, 1, 2, 3]) + 1)]
+            if k == "stdout" and rng.random() < 0.4:
+                op["err"] = True
         elif k == "log":
             np_ += 1
             op["ids"] = [P(np_, 1)]
         elif k == "update":
             nf += 1
-            h = 1 if cls == "status" else rng.choice([1, 1, 2, 3, 4, 5])
+            h = rng.choice([1, 1, 1, 2, 3]) if cls == "status" else rng.choice([1, 1, 2, 3, 4, 5])
             op["rows"] = [0 if (rng.random() < 0.15 and cls != "status") else F(nf, i) for i in range(1, h + 1)]
             op["refresh"] = True if cls == "status" else rng.random() < 0.6
+            if cls == "status" and rng.random() < 0.3:
+                op["spinner"] = rng.choice(["dots", "line", "bouncingBar", "moon", "clock", "point"])
         elif k == "add":
             nt += 1
             op["id"] = nt
             op["label"] = F(nt, 1)
             tasks.append(nt)
-        elif k in ("hide", "show", "advance"):
+        elif k in ("hide", "show", "advance", "relabel"):
             op["id"] = rng.choice(tasks) if tasks else 0
             if not tasks:
                 op["k"] = "refresh"
+            elif k == "relabel":
+                nt2 = 500 + j
+                op["label"] = F(nt2, 1)
         elif k == "remove":
             op["id"] = tasks.pop(rng.randrange(len(tasks)))
         ops.append(op)
@@ -274,6 +289,22 @@ SPECS = [
     dict(cls="live", mode="last", transient=True, overflow="visible", H=4, wide=True),
     dict(cls="progress", mode="max", transient=False, overflow="visible", H=25, wide=True),
 ]
+
+
+def random_spec(rng):
+    """the whole product of the quantifier: class x transient x vertical_overflow x console height x terminal width x
+    redirect options x frames wider than the terminal (x spinner)"""
+    cls = rng.choice(["live", "live", "progress", "progress", "status"])
+    spec = dict(cls=cls, mode="max" if cls == "progress" else "last",
+                transient=True if cls == "status" else rng.random() < 0.5,
+                overflow="ellipsis" if cls == "status" else ("visible" if cls == "progress" else rng.choice(["ellipsis", "crop", "visible"])),
+                H=25 if cls == "status" else rng.choice([2, 3, 4, 25]), W=rng.choice([40, 40, 60, 100]),
+                redirect=rng.random() < 0.8)
+    if cls != "status" and rng.random() < 0.25:
+        spec["wide"] = True
+    if cls == "status" and rng.random() < 0.5:
+        spec["spinner"] = rng.choice(["line", "bouncingBar", "moon", "clock", "point", "arrow3"])
+    return spec
 
 
 def sig_shape(spec, ops, step):
@@ -320,7 +351,7 @@ def run(chk: Check):
         chk.notes["tlc_generated_histories"] = len(cases)
         chk.mark("M1+M2")
         for i in range(chk.pick(1500, 25000)):
-            spec = chk.rng.choice(SPECS)
+            spec = chk.rng.choice(SPECS) if i % 2 else random_spec(chk.rng)
             cases.append((spec, random_history(chk.rng, spec, chk.rng.randint(2, chk.pick(16, 40)), faults=i % 3 == 0)))
     recs = []
     for spec, ops in cases:
